@@ -367,6 +367,26 @@ func (p *Prov) zeroPathJustified(ic *IterCheck, z zeroPath) bool {
 			return true
 		}
 	}
+	// leaving the element in place is the raw store `arr[i] = item`: licensed exactly when
+	// that store would be (a '$field' reference, an exempt position, ...)
+	if ic.Loop.Kind == "slice" {
+		var item ssa.Value
+		for b := range ic.Loop.Loop.Region() {
+			for _, in := range b.Instrs {
+				if ld, ok := in.(*ssa.UnOp); ok {
+					if ia, ok := ld.X.(*ssa.IndexAddr); ok && ia.X == ic.Loop.Coll && ia.Index == ic.Loop.Idx {
+						item = ld
+					}
+				}
+			}
+		}
+		if item != nil {
+			vs := &Sink{Fn: ic.Fn, Kind: "store", Val: item, Recv: ic.Out, Atoms: z.Atoms}
+			if p.justify(vs) != "" {
+				return true
+			}
+		}
+	}
 	return false
 }
 
